@@ -578,11 +578,13 @@ pub fn run(ctx: &Ctx) -> Report {
     let active = active_findings(ctx, &mut report);
     let thorough = ctx.thorough();
     let hooks = Hooks { attribute: &|_c, _m, _o, _mm| None, nontrivial: &|_c, m| matches!(&m.outcome, Outcome::Uncaught(u) if u.trace.len() >= 2) || !m.out.is_empty(), fuel: 2_000_000 };
-    let stats = mcheck::run(ctx, runtime_cases(thorough).into_iter(), &hooks);
+    // (plus C08's programs in which one function is active twice with an outcome waiting in the outer
+    // activation's finally block: the uncaught variants' reports are compared entry by entry)
+    let stats = mcheck::run(ctx, runtime_cases(thorough).into_iter().chain(crate::c08::recursion_from_finally()), &hooks);
     mcheck::fill_report(
         &mut report,
         &stats,
-        "R: every call chain of depth 0-3/4 over link kinds {function, method, static method, lambda, constructor, map callback, reduce callback, fiber body} with the failing statement (12 kinds: throws of 4 value kinds, 6 failing built-ins, throwing callees) at the bottom, in place, inside a module function or as a module body; one statement per line with padding so every line differs. Uncaught variant: class, text (where the model defines it), error kind and the full trace (one entry per active call, innermost first; library frames by name only) must equal M-eval's; caught variant: the handler sees the same class. The same with an earlier, completely handled exception (6 shapes: thrown and caught in place, thrown by a callee, raised by a built-in, caught after passing a finally block, caught in a loop, handled in another fiber that ran to its end) placed in each active frame of every chain up to depth 2/3 before the failing statement. The same with the call or failing statement at each position wrapped in one or two nested try/finally statements, so that the uncaught error passes through finally blocks (the report lists the calls still active when it is made, each with the line of the statement it was executing when the error was raised). Plus caught==uncaught on the implementation for 26 failing statements including host natives of every ErrorKind, compile-error lines for a stray token before every statement, and the same for a module that does not compile: every attempt to import it (seven placements in one program, then two more programs on the same interpreter) reports ImportError with the module's name, the line and the token; a missing module likewise. non-trivial = a trace of at least two entries, or output.",
+        "R: every call chain of depth 0-3/4 over link kinds {function, method, static method, lambda, constructor, map callback, reduce callback, fiber body} with the failing statement (12 kinds: throws of 4 value kinds, 6 failing built-ins, throwing callees) at the bottom, in place, inside a module function or as a module body; one statement per line with padding so every line differs. Uncaught variant: class, text (where the model defines it), error kind and the full trace (one entry per active call, innermost first; library frames by name only) must equal M-eval's; caught variant: the handler sees the same class. The same with an earlier, completely handled exception (6 shapes: thrown and caught in place, thrown by a callee, raised by a built-in, caught after passing a finally block, caught in a loop, handled in another fiber that ran to its end) placed in each active frame of every chain up to depth 2/3 before the failing statement. The same with the call or failing statement at each position wrapped in one or two nested try/finally statements, so that the uncaught error passes through finally blocks (the report lists the calls still active when it is made, each with the line of the statement it was executing when the error was raised). Plus caught==uncaught on the implementation for 26 failing statements including host natives of every ErrorKind, compile-error lines for a stray token before every statement, and the same for a module that does not compile: every attempt to import it (seven placements in one program, then two more programs on the same interpreter) reports ImportError with the module's name, the line and the token; a missing module likewise. Plus the 240 programs of C08's family `recursion_from_a_finally_block` (one function active twice, the outer activation in its finally block with an outcome waiting): class, message and trace of the uncaught variants. non-trivial = a trace of at least two entries, or output.",
         json!({"chain_depth": if thorough { 4 } else { 3 }, "link_kinds": LINKS.len(), "failing_statements": FAILS.len()}),
     );
     let (n_ceq, _bad) = caught_equals_uncaught(ctx, &mut report);
